@@ -254,4 +254,42 @@ def impliesOn (atoms : List Atom) (p q : Policy) : Bool :=
 def minTrueKeys (p : Policy) : Option Nat :=
   (((subsets (atomsOf p).eraseDups).filter (fun ts => holdsA (valOf ts) p)).map nSigs).min?
 
+/-! ## Safety and malleability of a concrete policy (what `is_safe_nonmalleable` is about) -/
+
+/-- nobody signs, everything else (preimages, locks) is available -/
+def noKeys : Atom → Bool := fun a => !a.isKey
+
+/-- SAFE: every way of satisfying the policy needs at least one signature -/
+def isSafeSpec (c : CPolicy) : Bool := (selsC false c).all (fun s => decide (1 ≤ nSigs s))
+
+def subsetOf (xs ys : List Atom) : Bool := xs.all ys.contains
+def sameAtoms (xs ys : List Atom) : Bool := subsetOf xs ys && subsetOf ys xs
+
+/-- A third party that sees the satisfaction `s` can turn it into `s'`: it cannot sign, so every
+key of `s'` must already sign in `s`; everything that is not a signature it can supply as soon
+as it is available at all (`R`: the atoms that can currently be satisfied — the third party
+knows what the honest spender knows, except private keys). -/
+def canForge (R s s' : List Atom) : Bool :=
+  (s'.filter Atom.isKey).all s.contains && (s'.filter (fun a => !a.isKey)).all R.contains
+
+/-- no third party can replace the satisfaction `s` by a different one -/
+def unforgeable (S : List (List Atom)) (R s : List Atom) : Bool :=
+  S.all (fun s' => !canForge R s s' || sameAtoms s s')
+
+/-- NON-MALLEABLE (the Miniscript notion, on the level of policies): whatever can currently be
+satisfied (`R`), if the policy can be satisfied at all then the spender can choose a
+satisfaction that no third party can replace by another one. -/
+def isNonMalleableSpec (c : CPolicy) : Bool :=
+  let S := selsC false c
+  (subsets (atomsOfC c).eraseDups).all fun R =>
+    let avail := S.filter (fun s => subsetOf s R)
+    avail.isEmpty || avail.any (fun s => unforgeable S R s)
+
+/-- key leaves of `p` that sign under the assignment `v` -/
+def trueKeys (v : Atom → Bool) (p : Policy) : Nat :=
+  ((atomsOf p).filter (fun a => a.isKey && v a)).length
+
+/-- number of key leaves, repetitions counted -/
+def keyOccurrences (p : Policy) : Nat := (atomsOf p).countP Atom.isKey
+
 end MsVerif.Pol
